@@ -381,7 +381,7 @@ func emHist(h Hist) string {
 		if s.Op.K == "iofail" {
 			opText = fmt.Sprintf("(OIoFail %s %s)", emNat(s.Op.F), emBool(s.Out.Status == "err"))
 		}
-		parts[i] = "{| s_op := " + opText + "; s_out := " + emOut(s.Out) + "; s_delta := " + emDelta(prev, s.Pool) +
+		parts[i] = "{| s_op := " + opText + "; s_out := " + emOut(s.Out) + "; s_delta := " + emDelta(prev, s.Pool) + "; s_shared := " + emBool(s.Shared != "") +
 			"; s_nrows := " + emList(s.Nrows, emZ) + " |}"
 		prev = s.Pool
 	}
